@@ -1229,14 +1229,31 @@ class C17(Engine):
         clock.hook_at = fault['n']
         keep = []
 
-        with fsfault.seeded_urandom(mix(seed, 'urandom', index)):
-            clock.install()
+        def on_alarm(signum, frame):
+            raise InprocTimeout()
 
-            try:
-                payload = behaviour(paths, op['codec'], op, cache, seed, keep,
-                                    probes=probes_old)
-            finally:
-                clock.uninstall()
+        # (Under an alarm, as every in-process compile: a call that waits
+        # for ever - for a lock a killed process left behind, say - is
+        # abandoned; the later compiles of the history are judged.)
+        previous = signal.signal(signal.SIGALRM, on_alarm)
+        signal.setitimer(signal.ITIMER_REAL, 4 * CHILD_WALL_S)
+
+        try:
+            with fsfault.seeded_urandom(mix(seed, 'urandom', index)):
+                clock.install()
+
+                try:
+                    payload = behaviour(paths, op['codec'], op, cache, seed,
+                                        keep, probes=probes_old)
+                finally:
+                    clock.uninstall()
+        except InprocTimeout:
+            payload = {'outcome': 'err', 'type': 'abandoned',
+                       'text': 'no return within the wall limit'}
+            result.stats['compiles-in-process-abandoned'] += 1
+        finally:
+            signal.setitimer(signal.ITIMER_REAL, 0)
+            signal.signal(signal.SIGALRM, previous)
 
         gc.collect()
         result.evaluations += 1
